@@ -29,8 +29,12 @@ func runC03(c *Ctx) {
 	c03R4(c, "C03.R4")
 	c03R5(c, "C03.R5")
 	c03R6(c, "C03.R6")
-	// imported: the receiver applies the close only in turn
+	// imported: the receiver applies the close only in turn, and everything with a lower number has been handed to the
+	// pipe (not merely popped) by then: deliver-in-turn, write/increment pairing and the reorder invariant
 	c.importing = "C02"
+	c02R1(c, "C02.R1")
+	c02R2(c, "C02.R2")
+	c02R3(c, "C02.R3")
 	c02R5(c, "C02.R5")
 	c.importing = ""
 }
@@ -120,6 +124,16 @@ func c03R2(c *Ctx, rule string) {
 			}
 		}
 	})
+	// `defer s.recvBuf.Close()` registered right after the CAS is equivalent: it runs at every later return
+	if bufClose == nil {
+		allInstrs(cs, func(i ssa.Instruction) {
+			if d, ok := i.(*ssa.Defer); ok && d.Call.IsInvoke() && d.Call.Method.Name() == "Close" {
+				if fv, _ := loadedField(d.Call.Value); fv == a12.recvBuf {
+					bufClose = i
+				}
+			}
+		})
+	}
 	if cas == nil || bufClose == nil {
 		c.Bad(rule, "closeStream closes the receive buffer", c.atFn(cs), fmt.Sprintf("CAS on stream.closed found=%v, recvBuf.Close() found=%v: a stream close never wakes a blocked reader", cas != nil, bufClose != nil))
 		return
